@@ -122,6 +122,16 @@ def check_charge(case):
             raise Violation(f"uniform-charge-nonzero:{method}", f"{q0!r}")
         dens = dft.topological_charge_density(f, method=method)
         require(dens.nvdim == 1 and dens.mesh == f.mesh, f"density-metadata-{method}")
+    # the tools work on the current values: reverse all vectors in place and ask again
+    g = mk2d(case, arr.copy(), mask=mask)
+    for method in ("continuous", "berg-luescher"):
+        q1 = dft.topological_charge(g, method=method)
+        g.orientation  # noqa: B018 - something else that derives from the values
+        g.array[...] *= -1
+        q2 = dft.topological_charge(g, method=method)
+        g.array[...] *= -1
+        if abs(q1 + q2) > 1e-8 * max(1.0, abs(q1)):
+            raise Violation(f"charge-stale-after-inplace-write:{method}", f"{q1!r} then, after reversing all vectors in place, {q2!r}")
     if case["kind"] == "texture" and mask.all():
         cells_across = 2 * case["radius"] * 0.8 * min(n[0] * case["cell"][0], n[1] * case["cell"][1]) / 2 / max(case["cell"])
         if cells_across >= 8 * abs(case["Q"]):
@@ -221,6 +231,12 @@ def check_hedgehog(case):
                                               f"{case['vertex']}+{case['jitter']}, sphere={case['sphere']}: {r}")
     F = dft.emergent_magnetic_field(f)
     require(F.nvdim == 3 and F.mesh == mesh, "emergent-field-metadata")
+    # reversed in place: the same object must now be counted head-to-head (tail-to-tail)
+    f.array[...] *= -1
+    r = dft.count_bps(f, direction="z")
+    want_tt, want_hh = (0, 1) if case["sign"] > 0 else (1, 0)
+    if not (r["bp_number"] == 1 and r["bp_number_tt"] == want_tt and r["bp_number_hh"] == want_hh):
+        raise Violation("hedgehog-stale-after-inplace-write", f"after reversing the vectors in place: {r}")
 
 
 # --------------------------------------------------------------------------- angles
